@@ -73,6 +73,62 @@ def _controller(p, modname, clsname, sp, continuous=False):
     return obj, vm, tap0, written, f
 
 
+TC = "pandapower.control.controller.trafo_control"
+
+
+def run_initialize(vc):
+    """TrafoController.initialize_control (run by run_control before the first control step): the direction coefficient and the tap
+    parameters the control step and the convergence test work with are those of the *current* network -- 'the needed direction' of
+    the property is the physical one: with the tap changer on the controlled side a higher tap lowers the controlled voltage (for a
+    positive tap_step_percent), on the other side it raises it."""
+    for side in ("lv", "hv"):
+        def h(p, side=side):
+            it = p.it
+            cls = it.modenv(TC).get("TrafoController")
+            idx = SV(z3.Int("trafo_idx"))
+            col = lambda nm, sort=R: SV(z3.Function(f"trafo.{nm}", I, sort)(idx.z))
+            stale = lambda nm, sort=R: SV(z3.Const(f"stale.{nm}", sort))
+            attrs = {"element": "trafo", "element_index": idx, "side": side, "_read_write_flag": "single_index", "trafobus": stale("trafobus", I),
+                     "tap_side_coeff": stale("tap_side_coeff", I)}
+            for nm in ("tap_min", "tap_max", "tap_neutral", "tap_step_percent", "tap_step_degree", "tap_pos"):
+                attrs[nm] = stale(nm)
+            obj = ObjVal(cls, attrs)
+
+            def read_from_net(it, net, element, index, variable, flag="auto"):
+                if element != "trafo" or index is not idx:
+                    raise EngineError("read_from_net of another element")
+                if variable == "tap_side":
+                    return col("tap_side", PV)
+                if variable == "in_service":
+                    return col("in_service", B)
+                if variable.endswith("_bus"):
+                    return col(variable, I)
+                return col(variable)
+            me = it.modenv(TC)
+            me.vals["read_from_net"] = Native(read_from_net, name="read_from_net")
+            me.vals["_detect_read_write_flag"] = Native(lambda it, *a, **k: ("single_index", None), name="_detect_read_write_flag")
+            it.summaries[f"{TC}:TrafoController.nothing_to_do"] = lambda it, self, net: False
+            ts = col("tap_side", PV).z
+            p.assume(z3.Or(ts == to_pv("hv"), ts == to_pv("lv")))
+            p.fn(f"{TC}:TrafoController._set_tap_side_coeff"); p.fn(f"{TC}:TrafoController._set_tap_parameters")
+            it.call(it.getattr(obj, "initialize_control"), [Opaque("net")], {})
+            p.fn(f"{TC}:TrafoController.initialize_control")
+            meta = dict(part="initialize")
+            on_ctrl_side = ts == to_pv(side)
+            step_neg = to_z(col("tap_step_percent"), R) < 0
+            # +1: a higher tap lowers the controlled voltage; -1: it raises it; a negative step per tap reverses the effect
+            want = z3.If(on_ctrl_side, -1, 1) * z3.If(step_neg, -1, 1)
+            got = it.getattr(obj, "tap_side_coeff")
+            p.prove(f"initialize[{side}]: the direction coefficient is derived from the network's current tap_side and tap_step_percent",
+                    to_z(got, I) == want, meta=meta, note="a coefficient kept from the time the controller was created moves the tap the wrong way "
+                                                          "after the tap side or the sign of the step was edited")
+            for nm in ("tap_min", "tap_max", "tap_neutral", "tap_step_percent"):
+                p.prove(f"initialize[{side}]: {nm} is the network's current value", to_z(it.getattr(obj, nm), R) == to_z(col(nm), R), meta=meta)
+            p.prove(f"initialize[{side}]: the controlled bus is the transformer's current {side} bus",
+                    to_z(it.getattr(obj, "trafobus"), I) == to_z(col(side + "_bus", I), I), meta=meta)
+        vc.explore(f"TrafoController.initialize_control[{side}]", h, max_paths=40)
+
+
 def run(vc):
     vc.configure = configure
     vc.trust("read_from_net / write_to_net read and write the named column of the controlled elements (pandapower.auxiliary)",
@@ -154,6 +210,7 @@ def run(vc):
         atlimit = z3.Or(z3.And(d == -1, to_z(tap0, R) == z3.ToReal(tmin)), z3.And(d == 1, to_z(tap0, R) == z3.ToReal(tmax)))
         p.prove("continuous:converged-means-tolerance-or-limit", z3.Implies(truth_z(r), z3.Or(vm.nan, within, atlimit)))
     vc.explore("ContinuousTapControl.is_converged", h_cconv, max_paths=20)
+    run_initialize(vc)
 
     # ---- bounded: loops over the list of levels -----------------------------------------------------------------------
     vc.bounded.append({"function": f"{RC}:check_for_initial_run / control_implementation",
@@ -266,6 +323,10 @@ def classify(ob, model):
 
 
 def replay(ob, model, finding=None):
+    if ob.meta.get("part") == "initialize":
+        return {"script": f"# replay of {ob.id}\nfrom replaylib.controlloop import main_edited\nmain_edited()\n",
+                "description": "tap controllers on a network whose tap side / step sign is edited after the controller was created: voltage in band "
+                               "or tap at the limit in the physically needed direction"}
     return {"script": f"# replay of {ob.id}\nfrom replaylib.controlloop import main\nmain()\n",
             "description": "run_control on networks with tap controllers on several levels / repeated calls: results equal a fresh power flow, "
                            "taps within limits, voltage in band or tap at limit"}
